@@ -231,3 +231,6 @@ func init() {
 		},
 	}
 }
+
+// CaseAtoms exposes the semantic atoms of a case (world, configuration, operation features).
+func (f *Fed) CaseAtoms(c Case) []string { return preAtoms(f, c) }
